@@ -4,7 +4,7 @@ import os, json, subprocess, tempfile, shutil
 from engine import cside, overlay
 from engine.checks import c_common
 
-FUNCS = ['sp_dgemv', 'sp_zgemv', 'spmatrix_subscr']
+FUNCS = ['sp_dgemv', 'sp_zgemv', 'sp_dsymv', 'sp_zsymv', 'spmatrix_subscr']
 KINDS = ('kernel-definition', 'iteration-space', 'footprint', 'deref',
          'divzero', 'covered', 'extern-requires')
 ROOT = os.path.dirname(os.path.dirname(os.path.dirname(
@@ -61,7 +61,8 @@ def run(report, tier, seed):
 
     def replayer(ob, base):
         fn = ob.meta.get('fn') or ''
-        if (fn.startswith('sp_') and fn.endswith('gemv')) or fn == 'gemv':
+        if (fn.startswith('sp_') and fn.endswith(('gemv', 'symv'))) or \
+                fn == 'gemv':
             r = gemv_battery(cache)
             if r['err']:
                 return False, {'error': r['err']}
